@@ -35,6 +35,14 @@ rule("C07.t", "a parameter that defaults to None and takes numbers (callers pass
 rule("C04.g", "an option string is normalised the same way everywhere it is compared (target.lower() == ... at every site): the branch "
               "that solves a variant and the branch that reports its value must agree on when the variant is active", floor=1,
      props=["C04", "C03"])
+rule("C07.y", "twin statements - two neighbouring statements that are equal up to a consistent renaming - use the same comparison "
+              "operators (`<=` next to `<` for the same test on two sequences is a slip in one of them)", floor=1, props=["C07", "C13"])
+rule("C19.l", "a loop over consecutive intervals skips an interval without steps (`continue`); it does not stop at it (`break`): intervals "
+              "before the grid are empty as well as those behind it", floor=0, props=["C19", "C08", "C13"])
+rule("C16.k", "scale homogeneity of the bounds: wherever the scale range (min_scale / max_scale) multiplies a quantity of the base asset "
+              "it is divided by norm_scale in the same product", floor=2)
+rule("C12.g", "values obtained from the same conversion helper get the same follow-up conversion: all ramp profiles returned by "
+              "_convert_ramp are multiplied by the step length (conversion_factor) - power and heat, start and shutdown alike", floor=4)
 NEUTRAL = "a term that is only applied under a test of its own parameter is skipped exactly when it is zero (`p != 0`): a one-sided test " \
           "(`p > 0`) drops the term for the other sign, although the set-up applies the parameter for every value"
 rule("C05.m", "storage: " + NEUTRAL, floor=1)
@@ -57,7 +65,7 @@ def _prop_rule(fn):
     return "C07.n"
 
 
-@analysis("siblings", ["C07.n", "C02.f", "C19.f", "C07.o", "C09.f", "C07.p", "C11.h", "C03.g", "C07.t", "C04.g", "C05.m", "C06.l", "C02.h"])
+@analysis("siblings", ["C07.n", "C02.f", "C19.f", "C07.o", "C09.f", "C07.p", "C11.h", "C03.g", "C07.t", "C04.g", "C05.m", "C06.l", "C02.h", "C12.g", "C07.y", "C19.l", "C16.k"])
 def run(ctx):
     p = ctx.p
     # ================================================================= C07.n decided branches
@@ -461,6 +469,139 @@ def run(ctx):
                    "given' - e.g. a default of 0 for steps outside all intervals is never filled in and the vector keeps NaN there"
                    % (name, why, au.short(bad[0].test, 50) if bad else ""), node=(bad[0] if bad else fn.node), ok_detail=why)
     ctx.require(n_t >= 8, "fewer than 8 optional numeric parameters found", rules=['C07.t'])
+
+    # ================================================================= C07.y twin statements
+    class _Skel(ast.NodeTransformer):
+        def __init__(self):
+            self.names, self.ops = {}, []
+
+        def visit_Name(self, node):
+            self.names.setdefault(node.id, "v%d" % len(self.names))
+            return ast.copy_location(ast.Name(id=self.names[node.id], ctx=node.ctx), node)
+
+        def visit_Compare(self, node):
+            self.generic_visit(node)
+            self.ops.append(tuple(type(o).__name__ for o in node.ops))
+            node.ops = [ast.Eq() for _ in node.ops]
+            return node
+
+    import copy as _copy
+    n_y = 0
+    for fn in sorted(p.all_functions(), key=lambda f: f.qualname):
+        if fn.parent is not None:
+            continue
+        blocks = [fn.body] + [b for s0 in au.walk_stmts(fn.body) for b in (getattr(s0, "body", None), getattr(s0, "orelse", None)) if isinstance(b, list) and b]
+        for blk in blocks:
+            for a, b in zip(blk, blk[1:]):
+                if not (isinstance(a, ast.If) and isinstance(b, ast.If)) or not any(isinstance(x, ast.Compare) for x in au.walk_local(a.test)):
+                    continue
+                if au.U(a) == au.U(b):
+                    continue
+                ka, kb = _Skel(), _Skel()
+                ta, tb = ka.visit(_copy.deepcopy(a)), kb.visit(_copy.deepcopy(b))
+                if au.U(ta) != au.U(tb) or len(ka.names) != len(kb.names):
+                    continue
+                # equal up to renaming: exactly the renamed identifiers differ
+                diff = [(x, y) for (x, i), (y, j) in zip(sorted(ka.names.items(), key=lambda kv: kv[1]), sorted(kb.names.items(), key=lambda kv: kv[1])) if x != y]
+                if not diff or len(diff) > 2:
+                    continue
+                n_y += 1
+                ctx.ob("C07.y", fn, "twins: %s / %s" % (au.short(a.test, 40), au.short(b.test, 40)), ka.ops == kb.ops,
+                       "the two neighbouring statements are the same statement for %s, except that one compares with %s and the other with %s: "
+                       "when the compared values coincide (a boundary that falls exactly on the first time point) the two sequences are treated "
+                       "differently - one keeps a superfluous leading boundary, and the first step forms an interval of its own" % (
+                           " / ".join("%s and %s" % d for d in diff), ka.ops, kb.ops), node=b)
+    ctx.require(n_y >= 1, "no twin statements found (periods / durations of the periodic merge)", rules=["C07.y"])
+
+    # ================================================================= C19.l stop at an empty interval
+    for fn in sorted(p.all_functions(), key=lambda f: f.qualname):
+        if fn.parent is not None:
+            continue
+        for lp in [s0 for s0 in au.walk_stmts(fn.body) if isinstance(s0, ast.For)]:
+            lvs = set(au.target_names(lp.target))
+            for iff in [s0 for s0 in lp.body if isinstance(s0, ast.If) and not s0.orelse and any(isinstance(x, ast.Break) for x in s0.body)]:
+                t, pol = au.strip_not(iff.test)
+                empt = None
+                if isinstance(t, ast.Call) and au.method_name(t) == "any" and isinstance(t.func, ast.Attribute) and not pol:
+                    empt = t.func.value
+                elif isinstance(t, ast.Compare) and len(t.ops) == 1 and isinstance(t.ops[0], ast.Eq) and au.const_num(t.comparators[0]) == 0 and pol \
+                        and isinstance(t.left, ast.Call) and au.call_name(t.left) in ("len", "sum", "np.sum"):
+                    empt = t.left.args[0] if t.left.args else None
+                if empt is None:
+                    continue
+                sel = ctx.resolve(fn, empt, iff)
+                if not (lvs & au.names_in(sel)) or not any(isinstance(x, ast.Compare) for x in au.walk_local(sel)):
+                    continue
+                ctx.ob("C19.l", fn, "if %s: break" % au.short(iff.test, 50), False,
+                       "the loop over the intervals stops at the first interval without steps; that is right for intervals behind the grid but "
+                       "intervals *before* the grid are empty too: a window that starts one coarse interval or more before the reference grid "
+                       "(an asset active since last year) ends up with no steps at all - the asset silently has no variables", node=iff)
+
+    # ================================================================= C16.k scale range x base quantity / norm_scale
+    sa = p.fn_opt("ScaledAsset.setup_optim_problem")
+    if sa is not None:
+        for n in au.walk_local(sa.node, include_self=False):
+            if not (isinstance(n, ast.BinOp) and isinstance(n.op, (ast.Mult, ast.Div))):
+                continue
+            par = p.parent(n)
+            if isinstance(par, ast.BinOp) and isinstance(par.op, (ast.Mult, ast.Div)):
+                continue                    # only the top of a multiplicative chain
+            chain = []
+            todo = [n]
+            while todo:
+                x = todo.pop()
+                if isinstance(x, ast.BinOp) and isinstance(x.op, (ast.Mult, ast.Div)):
+                    todo += [x.left, x.right]
+                else:
+                    chain.append(x)
+            paths = [au.path(x) for x in chain]
+            if not any(q in ("self.max_scale", "self.min_scale") for q in paths) or len(chain) < 2:
+                continue
+            ctx.ob("C16.k", sa, au.short(n, 80), "self.norm_scale" in paths,
+                   "a quantity of the base asset is multiplied by the scale range without being divided by norm_scale: a scale s stands for "
+                   "s / norm_scale base assets, so this bound is that of max_scale base assets instead of max_scale / norm_scale. With "
+                   "norm_scale < 1 it cuts off dispatch the coupling rows allow (fixed scale 1.5, norm_scale 0.5: value 244.7 instead of 321.7)",
+                   node=n)
+
+    # ================================================================= C12.g siblings from one conversion helper
+    for fn in sorted(p.all_functions(), key=lambda f: f.qualname):
+        if fn.parent is not None or fn.cls is None:
+            continue
+        by_helper = {}
+        for st in au.walk_stmts(fn.body):
+            if isinstance(st, ast.Assign) and len(st.targets) == 1 and isinstance(st.targets[0], ast.Name) and isinstance(st.value, ast.Call) \
+                    and isinstance(st.value.func, ast.Attribute) and au.base_name(st.value.func) == "self" and (au.method_name(st.value) or "").startswith("_convert"):
+                by_helper.setdefault(au.method_name(st.value), []).append(st)
+        for helper, sites in by_helper.items():
+            if len(sites) < 3:
+                continue
+            follow = {}
+            for st in sites:
+                nm = st.targets[0].id
+                ups = set()
+                for s2 in au.walk_stmts(fn.body):
+                    if s2.lineno <= st.lineno:
+                        continue
+                    if isinstance(s2, ast.AugAssign) and isinstance(s2.target, ast.Name) and s2.target.id == nm:
+                        ups.add((type(s2.op).__name__, au.U(s2.value)))
+                    elif isinstance(s2, ast.Assign) and len(s2.targets) == 1 and isinstance(s2.targets[0], ast.Name) and s2.targets[0].id == nm \
+                            and isinstance(s2.value, ast.BinOp) and (au.U(s2.value.left) == nm or au.U(s2.value.right) == nm):
+                        other = s2.value.right if au.U(s2.value.left) == nm else s2.value.left
+                        ups.add((type(s2.value.op).__name__, au.U(other)))
+                follow[st] = frozenset(ups)
+            tally = {}
+            for v in follow.values():
+                tally[v] = tally.get(v, 0) + 1
+            major = max(tally, key=lambda k: tally[k])
+            if not major:
+                continue
+            for st in sites:
+                ctx.ob("C12.g", fn, "%s = self.%s(..)" % (st.targets[0].id, helper), follow[st] == major,
+                       "%d of the %d values returned by %s are then converted with %s; this one %s. The profile stays a rate per main time "
+                       "unit but is used as a volume per step: on a grid whose step is not one main time unit (hourly grid in 'd' or 'min') "
+                       "the bound is off by the step length, and the same plant is worth 6230.5 in 'd' and 6167.5 in 'h'" % (
+                           tally[major], len(sites), helper, " and ".join("%s %s" % (o, f) for o, f in sorted(major)),
+                           "is not" if not follow[st] else "gets %s" % sorted(follow[st])), node=st)
 
     # ================================================================= C05.m / C06.l / C02.h neutral shortcuts
     for fn in sorted(p.all_functions(), key=lambda f: f.qualname):
